@@ -620,6 +620,11 @@ fn default_points(glyphs: &[Glyph], gid: usize, depth: usize) -> Option<Vec<(f64
 }
 
 pub fn build_font(vf: &VFont, rng: &mut Rng) -> Built {
+    build_font_with(vf, rng, None)
+}
+
+/// `cff2`: a CFF2 table to use instead of glyf/loca/gvar (all glyphs of `vf` are then Empty).
+pub fn build_font_with(vf: &VFont, rng: &mut Rng, cff2: Option<Vec<u8>>) -> Built {
     let n = vf.glyphs.len();
     let enc = EncChoice::random(rng);
     let mut records = Vec::new();
@@ -645,7 +650,7 @@ pub fn build_font(vf: &VFont, rng: &mut Rng) -> Built {
         });
     }
     let (glyf, loca, long) = ig::build_glyf_loca(&records, rng.chance(1, 4), rng.bool());
-    let mut f = Font::new(0x0001_0000);
+    let mut f = Font::new(if cff2.is_some() { 0x4F54_544F } else { 0x0001_0000 });
     // cmap: format 12, U+0041.. -> glyphs 1..
     let groups: Vec<(u32, u32, u32)> = if n > 1 { vec![(0x41, 0x41 + (n as u32 - 2), 1)] } else { vec![] };
     let sub = crate::sfnt::cmap::write_format12(&groups, 0);
@@ -665,10 +670,12 @@ pub fn build_font(vf: &VFont, rng: &mut Rng) -> Built {
         ..Default::default()
     };
     f.sets("hhea", hhea.write());
-    f.sets("maxp", it::write_maxp(n as u16, true));
+    f.sets("maxp", it::write_maxp(n as u16, cff2.is_none()));
     f.sets("hmtx", it::write_hmtx(&vf.metrics, vf.num_h_metrics));
-    f.sets("loca", loca);
-    f.sets("glyf", glyf);
+    if cff2.is_none() {
+        f.sets("loca", loca);
+        f.sets("glyf", glyf);
+    }
     // post 3.0 with the underline fields
     let mut post = it::write_post3();
     post[8..10].copy_from_slice(&(b("undo") as i16).to_be_bytes());
@@ -698,8 +705,17 @@ pub fn build_font(vf: &VFont, rng: &mut Rng) -> Built {
     if let Some(m) = &vf.avar {
         f.sets("avar", write_avar(m));
     }
-    let gv = write_gvar(vf, rng);
-    f.sets("gvar", gv.bytes);
+    let gv = match cff2 {
+        Some(t) => {
+            f.sets("CFF2", t);
+            GvarOut { bytes: Vec::new(), classes: Vec::new() }
+        }
+        None => {
+            let gv = write_gvar(vf, rng);
+            f.sets("gvar", gv.bytes.clone());
+            gv
+        }
+    };
     if let Some(h) = &vf.hvar {
         f.sets("HVAR", write_hvar(h, vf.axes.len()));
     }
@@ -1015,7 +1031,7 @@ fn point_dx(sel: &PointSel, deltas: &[(i16, i16)], pt: usize) -> i32 {
 }
 
 /// Build an ItemVariationData from rows over `region_idx`, choosing the column order and widths.
-fn make_ivdata(rng: &mut Rng, mut region_idx: Vec<u16>, mut rows: Vec<Vec<i32>>, allow_long: bool) -> IvData {
+pub fn make_ivdata(rng: &mut Rng, mut region_idx: Vec<u16>, mut rows: Vec<Vec<i32>>, allow_long: bool) -> IvData {
     let ncol = region_idx.len();
     // columns that need a 16-bit cell go first
     let needs_word: Vec<bool> = (0..ncol).map(|c| rows.iter().any(|r| !(-128..=127).contains(&r[c]))).collect();
@@ -1039,7 +1055,7 @@ fn make_ivdata(rng: &mut Rng, mut region_idx: Vec<u16>, mut rows: Vec<Vec<i32>>,
     IvData { region_idx, rows, word_count: word_count as u16, long }
 }
 
-fn make_dsmap(rng: &mut Rng, entries: Vec<(u16, u16)>) -> DsMap {
+pub fn make_dsmap(rng: &mut Rng, entries: Vec<(u16, u16)>) -> DsMap {
     let max_inner = entries.iter().map(|e| e.1).max().unwrap_or(0) as u32;
     let max_outer = entries.iter().map(|e| e.0).max().unwrap_or(0) as u32;
     let need_inner = (32 - max_inner.leading_zeros()).max(1) as u8;
@@ -1166,7 +1182,7 @@ fn gen_hvar(rng: &mut Rng, vf: &VFont, with_lsb: bool) -> Hvar {
     h
 }
 
-fn gen_mvar(rng: &mut Rng, vf: &VFont) -> Mvar {
+pub fn gen_mvar(rng: &mut Rng, vf: &VFont) -> Mvar {
     let n_axes = vf.axes.len();
     if rng.chance(1, 20) {
         // no records, no store
